@@ -10,7 +10,7 @@ import time
 
 VERIF = os.path.abspath(os.path.join(os.path.dirname(__file__), "..", ".."))
 REPO = os.environ.get("VERIF_REPO", "/repo")
-LEAN_DIR = os.path.join(VERIF, "lean")
+LEAN_DIR = os.environ.get("VERIF_LEAN_DIR") or os.path.join(VERIF, "lean")  # override: development copies only
 DRIVER = os.path.join(LEAN_DIR, ".lake", "build", "bin", "gsdriver")
 
 
